@@ -78,6 +78,19 @@ def Defects.asImplemented : Defects :=
     deletionBatchKeyedById := true, lazyScan := false,
     syncDeletionRoomScoped := true, summaryFirstEntityOnly := true }
 
+/-- the code before the three repairs of #20 (`findings/C09-1-seed-row-loaded.patch`, `C09-2-entity-compared.patch`,
+    `C09-3-emptied-day-dropped.patch`): the value the `C09_breaks_*` witnesses and the regression replays of
+    `corpus/C09` are about. It differs from `asImplemented` in these three switches only, once the repairs are in. -/
+def Defects.beforeFixHistory : Defects :=
+  { Defects.asImplemented with historySeedDropped := true, entityNotCompared := true, emptyDayRow := true }
+
+/-- the four switches that concern `DailyLogsUpdate::compute` are off -/
+structure Defects.LogRepaired (d : Defects) : Prop where
+  seed : d.historySeedDropped = false
+  entity : d.entityNotCompared = false
+  emptied : d.emptyDayRow = false
+  window : d.lazyScan = false
+
 def Defects.none : Defects :=
   { historySeedDropped := false, entityNotCompared := false, emptyDayRow := false, oldDayUnmarked := false,
     refDeletionUnmarked := false, refDeletionTouchesRowWithoutRef := false,
@@ -177,7 +190,19 @@ def sameForMarked (d : Defects) (c : Cursor) (room ent : Nat) : Bool :=
   | some (r, e) => r = room && (d.entityNotCompared || e = ent)
   | none => false
 
-/-- one iteration of the `while let Some(row) = rows.next()` loop; `none` = the row is removed -/
+/-- the cursor of a group none of whose days has been kept so far: `previous_hash = previous_history = None` -/
+def Cursor.start (room ent : Nat) : Cursor := { grp := some (room, ent), daily := none, hist := none }
+
+/-- one iteration of the `for … in window` loop; `none` = the row is removed.
+    The three switches of #20 select, branch by branch, the code before / after the three repairs
+    (`findings/C09-1-…`, `C09-2-…`, `C09-3-…`):
+    * unmarked row of a group the cursor is not in — it is the seed row, the last computed day before the first
+      marked one: its stored hashes are loaded (`historySeedDropped`: the cursor was reset instead);
+    * marked row: the group test compares room and entity (`entityNotCompared`: the room only);
+    * marked row whose day is empty: the row is deleted, the cursor moves to the group without taking part in the
+      chain (`emptyDayRow`: the row was kept with count 0 and chained); and a cursor in the group without a
+      history means that no earlier day of the group is left, so the chain starts at this row
+      (`emptyDayRow`: the stored history was loaded / the history became NULL). -/
 def stepRow (d : Defects) (sigs : Content) (room ent : Nat) (c : Cursor) (r : DayRow) :
     Cursor × Option DayRow :=
   if !r.dirty then
@@ -186,23 +211,25 @@ def stepRow (d : Defects) (sigs : Content) (room ent : Nat) (c : Cursor) (r : Da
       | some h =>
         let hh := chainHash h c.daily
         ({ grp := some (room, ent), daily := r.daily, hist := some hh }, some { r with hist := some hh })
-      | none => ({ grp := some (room, ent), daily := r.daily, hist := r.hist }, some r)
+      | none =>
+        if d.emptyDayRow then ({ grp := some (room, ent), daily := r.daily, hist := r.hist }, some r)
+        else ({ grp := some (room, ent), daily := r.daily, hist := r.daily }, some { r with hist := r.daily })
     else if d.historySeedDropped then
-      -- the code: an unmarked row of a new group resets the cursor (the stored values are not loaded)
+      -- before the repair: an unmarked row of a new group resets the cursor (the stored values are not loaded)
       ({ grp := some (room, ent), daily := none, hist := none }, some r)
     else
-      -- intended: an unmarked row that no row of its group precedes any more is the first day of the chain
-      ({ grp := some (room, ent), daily := r.daily, hist := r.daily }, some { r with hist := r.daily })
+      ({ grp := some (room, ent), daily := r.daily, hist := r.hist }, some r)
   else
     let s := sigs room ent r.day
-    if s.isEmpty && !d.emptyDayRow then (c, none)
+    if s.isEmpty && !d.emptyDayRow then
+      (if sameGroup c room ent then c else Cursor.start room ent, none)
     else
       let daily := dailyOf s
       let hist :=
         if sameForMarked d c room ent then
           match c.hist with
           | some h => some (chainHash h c.daily)
-          | none => none
+          | none => if d.emptyDayRow then none else daily
         else daily
       ({ grp := some (room, ent), daily := daily, hist := hist },
         some { day := r.day, count := s.length, daily := daily, hist := hist, dirty := false })
@@ -241,12 +268,43 @@ def walkLazy (d : Defects) (sigs : Content) (room ent : Nat) : Cursor → List D
 def cleanPrefix (rows : List DayRow) : List DayRow := rows.takeWhile (fun r => !r.dirty)
 def fromFirstDirty (rows : List DayRow) : List DayRow := rows.dropWhile (fun r => !r.dirty)
 
-/-- intended: the last unmarked row before the window seeds the cursor with its stored hashes -/
-def seedCursor (c : Cursor) (room ent : Nat) : Option DayRow → Cursor
-  | some s => { grp := some (room, ent), daily := s.daily, hist := s.hist }
-  | none => c
+/-! #### the window, literally as the `SELECT` of `compute` states it (one group = the correlated sub-queries) -/
 
-/-- the rows of one group: untouched rows before the window, then the walked window -/
+/-- `SELECT min(date)` -/
+def minDay : List Nat → Option Nat
+  | [] => none
+  | x :: t => match minDay t with
+    | none => some x
+    | some m => some (min x m)
+
+/-- `SELECT max(date)` -/
+def maxDay : List Nat → Option Nat
+  | [] => none
+  | x :: t => match maxDay t with
+    | none => some x
+    | some m => some (max x m)
+
+/-- `WHERE date >= IFNULL((SELECT max(date) … AND date < (SELECT min(date) … AND need_recompute = 1)),
+    (SELECT min(date) … AND need_recompute = 1))`; a comparison with NULL (no marked day) selects nothing -/
+def windowLow (rows : List DayRow) : Option Nat :=
+  match minDay ((rows.filter (·.dirty)).map (·.day)) with
+  | none => none
+  | some m => some ((maxDay ((rows.filter (fun r => r.day < m)).map (·.day))).getD m)
+
+def windowSql (rows : List DayRow) : List DayRow :=
+  match windowLow rows with
+  | none => []
+  | some lo => rows.filter (fun r => lo ≤ r.day)
+
+/-- the rows of the group the `SELECT` does not return -/
+def untouchedSql (rows : List DayRow) : List DayRow :=
+  match windowLow rows with
+  | none => rows
+  | some lo => rows.filter (fun r => r.day < lo)
+
+/-- the rows of one group: untouched rows before the window, then the walked window. The window is what the
+    `SELECT` of `compute` returns for a group that has a marked day: the last unmarked row before the first
+    marked one (if any), then every row from the first marked one onwards -/
 def recomputeGroup (d : Defects) (sigs : Content) (c : Cursor) (g : Group) : Cursor × Group :=
   let pre := cleanPrefix g.rows
   let rest := fromFirstDirty g.rows
@@ -254,13 +312,9 @@ def recomputeGroup (d : Defects) (sigs : Content) (c : Cursor) (g : Group) : Cur
   else if d.lazyScan then
     let (c', out) := walkLazy d sigs g.room g.ent c g.rows
     (c', { g with rows := out })
-  else if d.historySeedDropped then
+  else
     let (c', out) := walkRows d sigs g.room g.ent c (pre.getLast?.toList ++ rest)
     (c', { g with rows := pre.dropLast ++ out })
-  else
-    -- intended: the last unmarked row before the window seeds the cursor with its stored hashes
-    let (c', out) := walkRows d sigs g.room g.ent (seedCursor c g.room g.ent pre.getLast?) rest
-    (c', { g with rows := pre ++ out })
 
 def recomputeFrom (d : Defects) (sigs : Content) : Cursor → Log → Log
   | _, [] => []
